@@ -46,7 +46,7 @@ const (
 	IndentTab     uint8 = 9
 	IndentSpace   uint8 = 32
 
-	RuneEOF rune = 0
+	RuneEOF rune = -1
 	RuneSP  rune = 0x0020 // <SP>
 	RuneTAB rune = 0x0009 // <TAB>
 	RuneCR  rune = 0x000D // \r
